@@ -671,8 +671,8 @@ def A_default(obj, Rn, imm3, Rd, imm2, tb, Rm):
 @ispec("32[ 1111 1100 imm(8) 11111 00 0 0 0 1 1 Rn(4) ]", mnemonic="PLDW", add=False)
 @ispec("32[ 1111 imm(12) 11111 00 1 1 0 0 1 Rn(4) ]", mnemonic="PLI", add=True)
 @ispec("32[ 1111 imm(12) 11111 00 1 1 0 1 1 Rn(4) ]", mnemonic="PLIW", add=True)
-@ispec("32[ 11111 1100 imm(8) 1111 00 1 0 0 0 1 Rn(4) ]", mnemonic="PLI", add=False)
-@ispec("32[ 11111 1100 imm(8) 1111 00 1 0 0 1 1 Rn(4) ]", mnemonic="PLIW", add=False)
+@ispec("32[ 1111 1100 imm(8) 11111 00 1 0 0 0 1 Rn(4) ]", mnemonic="PLI", add=False)
+@ispec("32[ 1111 1100 imm(8) 11111 00 1 0 0 1 1 Rn(4) ]", mnemonic="PLIW", add=False)
 def instr_PLx(obj, Rn, imm):
     obj.n = env.regs[Rn]
     obj.imm32 = env.cst(imm, 32)
